@@ -46,6 +46,97 @@ struct Verdict {
 };
 using RunFn = std::function<Verdict(const Case &)>;
 
+// Runs the oracle on one case in a forked child, so that every case starts from pristine process state: a function-local
+// `static` or a cached value introduced into the code under test cannot carry over from one generated case to the next (which
+// would make the solo / interleaved / fresh-instance comparisons agree with each other for the wrong reason), and a crash of
+// the code under test becomes an ordinary failing verdict that rapidcheck can shrink.
+#include <sys/wait.h>
+#include <unistd.h>
+// true inside a child created by run_isolated (and in --replay mode): oracles that compare two instances may then put each
+// instance into a process of its own (digests_in_child), so that not even function-local statics are shared between them
+inline bool &in_isolated_child() { static bool b = false; return b; }
+
+// evaluates f in a forked child and returns the 64-bit digests it produced (empty + ok=false if the child died)
+inline std::vector<uint64_t> digests_in_child(const std::function<std::vector<uint64_t>()> &f, bool *ok) {
+    int fd[2];
+    *ok = true;
+    if (pipe(fd) != 0) return f();
+    fflush(stdout); fflush(stderr);
+    pid_t pid = fork();
+    if (pid < 0) { close(fd[0]); close(fd[1]); return f(); }
+    if (pid == 0) {
+        close(fd[0]);
+        std::vector<uint64_t> v = f();
+        uint64_t n = v.size();
+        std::string out((const char *)&n, 8);
+        out.append((const char *)v.data(), v.size() * 8);
+        size_t off = 0;
+        while (off < out.size()) { ssize_t w = write(fd[1], out.data() + off, out.size() - off); if (w <= 0) break; off += (size_t)w; }
+        _exit(0);
+    }
+    close(fd[1]);
+    std::string data;
+    char buf[4096];
+    for (;;) { ssize_t r = read(fd[0], buf, sizeof buf); if (r <= 0) break; data.append(buf, (size_t)r); }
+    close(fd[0]);
+    int status = 0;
+    waitpid(pid, &status, 0);
+    std::vector<uint64_t> v;
+    if (!(WIFEXITED(status) && WEXITSTATUS(status) == 0) || data.size() < 8) { *ok = false; return v; }
+    uint64_t n; memcpy(&n, data.data(), 8);
+    if (data.size() != 8 + n * 8) { *ok = false; return v; }
+    v.resize(n);
+    if (n) memcpy(v.data(), data.data() + 8, n * 8);
+    return v;
+}
+inline uint64_t ev_digest(const std::vector<Ev> &e) {
+    uint64_t h = 1469598103934665603ULL;
+    for (auto &x : e) { h = fnv(&x.kind, sizeof x.kind, h); h = fnv(&x.ifid, sizeof x.ifid, h); h = fnv(&x.ms, sizeof x.ms, h); uint64_t n = x.data.size(); h = fnv(&n, 8, h); if (n) h = fnv(x.data.data(), n, h); }
+    return h;
+}
+
+inline Verdict run_isolated(const RunFn &run, const Case &c) {
+    int fd[2];
+    if (pipe(fd) != 0) return run(c);
+    fflush(stdout); fflush(stderr);
+    pid_t pid = fork();
+    if (pid < 0) { close(fd[0]); close(fd[1]); return run(c); }
+    if (pid == 0) {
+        close(fd[0]);
+        in_isolated_child() = true;
+        Verdict v = run(c);
+        std::string out = std::string(v.ok ? "1" : "0") + "\n" + (v.nontrivial ? "1" : "0") + "\n" + v.sig + "\n";
+        std::string why = v.why;
+        for (auto &ch : why) if (ch == '\n') ch = ' ';
+        out += why + "\n";
+        for (auto &k : v.classes) out += k + "\x1f";
+        out += "\n";
+        size_t off = 0;
+        while (off < out.size()) { ssize_t w = write(fd[1], out.data() + off, out.size() - off); if (w <= 0) break; off += (size_t)w; }
+        _exit(0);
+    }
+    close(fd[1]);
+    std::string data;
+    char buf[4096];
+    for (;;) { ssize_t r = read(fd[0], buf, sizeof buf); if (r <= 0) break; data.append(buf, (size_t)r); }
+    close(fd[0]);
+    int status = 0;
+    waitpid(pid, &status, 0);
+    Verdict v;
+    std::vector<std::string> lines;
+    { std::istringstream is(data); std::string l; while (std::getline(is, l)) lines.push_back(l); }
+    if (WIFEXITED(status) && WEXITSTATUS(status) == 0 && lines.size() >= 5) {
+        v.ok = lines[0] == "1"; v.nontrivial = lines[1] == "1"; v.sig = lines[2]; v.why = lines[3];
+        std::istringstream cs(lines[4]); std::string k;
+        while (std::getline(cs, k, '\x1f')) if (!k.empty()) v.classes.push_back(k);
+        return v;
+    }
+    v.ok = false; v.sig = "crash";
+    v.why = WIFSIGNALED(status) ? fmt("the case crashed the process (signal %d); see the sanitizer report in the log", WTERMSIG(status))
+                                : fmt("the case made the process exit with status %d (sanitizer report or abort); see the log", WIFEXITED(status) ? WEXITSTATUS(status) : -1);
+    return v;
+}
+
 // Generates n cases with rapidcheck (seeded), runs the oracle on each, records evidence.
 // On the first failure rapidcheck shrinks; every failing evaluation overwrites a.failing, so the
 // file left behind is the minimal one. Returns false on failure.
@@ -58,11 +149,18 @@ inline bool run_cases(const Args &a, Evidence &ev, const std::string &name, long
     params.maxDiscardRatio = 10;
     rc::detail::TestMetadata md;
     md.id = name; md.description = name;
-    bool failed_once = false;
+    bool failed_once = false, failed_isolated = false;
+    long evaluated = 0;
     auto result = rc::detail::checkTestable([&] {
         Case c = *gen;
         CurrentScope scope(c);
-        Verdict v = run(c);
+        // a sample of the cases (evenly spread, about a.isolate_n per part and shard) runs in a forked child; a failing case keeps
+        // being evaluated the way it failed, so that shrinking sees the same behaviour
+        bool iso = a.isolate && (failed_once ? failed_isolated : (a.isolate_n > 0 && evaluated % std::max<long>(1, n / a.isolate_n) == 0));
+        evaluated++;
+        Verdict v = iso ? run_isolated(run, c) : run(c);
+        if (!v.ok && !failed_once) failed_isolated = iso;
+        if (iso && !failed_once) ev.count(name + ":evaluated-in-a-fresh-process");
         if (!v.ok && !v.sig.empty() && a.known.count(v.sig)) {   // listed known finding: excluded, counted, search goes on
             ev.count("excluded-known-finding:" + v.sig);
             v.ok = true; v.nontrivial = false;
@@ -92,6 +190,7 @@ inline int replay_case(const Args &a, const RunFn &run) {
     Case c;
     if (!Case::from_text(t, c)) { fprintf(stderr, "cannot parse %s\n", a.replay.c_str()); return 2; }
     CurrentScope scope(c);
+    in_isolated_child() = !getenv("VERIF_NO_ISOLATE");
     Verdict v = run(c);
     if (!v.ok) { printf("REPLAY-FAIL sig=%s %s\n", v.sig.empty() ? "-" : v.sig.c_str(), v.why.c_str()); return 1; }
     printf("REPLAY-PASS\n");
